@@ -844,6 +844,21 @@ func genWQueue(r *rand.Rand, tier string) Case {
 	in := []int64{int64(maxq), b2i(fast)}
 	type req struct{ a, b int64; data []byte }
 	var reqs []req
+	if r.Intn(4) == 0 {
+		// a late cancel: the first piece has left the queue (it is being written) when the peer cancels it;
+		// then more requests than the queue may hold.  The cancel must not free a slot a second time.
+		d := make([]byte, 1+r.Intn(40))
+		r.Read(d)
+		first := WMsg{Tag: 7, A: 9, B: 0, Data: d}
+		in = append(in, first.Flat()...)
+		in = append(in, WMsg{Tag: 8, A: 9, B: 0, C: int64(len(d))}.Flat()...)
+		for k := 0; k < maxq+2; k++ {
+			d2 := make([]byte, 1+r.Intn(20))
+			r.Read(d2)
+			in = append(in, WMsg{Tag: 7, A: int64(k), B: 16384, Data: d2}.Flat()...)
+		}
+		return Case{In: in, Obs: Guard(func() []int64 { return runWQueue(in) })}
+	}
 	n := 2 + r.Intn(9)
 	for i := 0; i < n; i++ {
 		x := r.Intn(10)
